@@ -82,7 +82,7 @@ class ObjRun:
         self.G = graphs.build(self.sc["graph"], hook=self.hook)
         self.vals = self.G["vals"]
         # a second admissible value per variable: siblings conditioned on DIFFERENT values of the same variable
-        self.vals_alt = {n: (np.asarray(v, float) * 1.7 + (0.0 if n in ("s", "d", "b") or np.all(np.asarray(v) > 0) else 0.3))
+        self.vals_alt = {n: (np.asarray(v, float) * 1.7 + (0.0 if n in ("s", "d", "b", "t", "prec") or np.all(np.asarray(v) > 0) else 0.3))
                          for n, v in self.vals.items()}
         self.twinG0 = graphs.build(self.sc["graph"])
         self.total = float(np.ravel(self.twinG0["J"].logd(**self.vals))[0])
@@ -178,6 +178,13 @@ class ObjRun:
             if len(pn) == 1:
                 s.append(("logd_pos", _try(lambda: _f(obj.logd(vals[pn[0]])))))
                 s.append(("gradient", _try(lambda: _f(obj.gradient(vals[pn[0]])))))
+        if isinstance(obj, Distribution) and "sqrtprec" in dir(type(obj)) and not isinstance(obj, Posterior):
+            def sq():
+                if obj.is_cond:
+                    return "conditional"
+                m_ = obj.sqrtprec
+                return _f(m_.toarray() if hasattr(m_, "toarray") else m_)
+            s.append(("sqrtprec", _try(sq)))
         if isinstance(obj, Distribution) and not isinstance(obj, Posterior):
             def draw():
                 return _f(obj.sample(1, rng=np.random.RandomState(7)))
@@ -310,6 +317,12 @@ class ObjRun:
         if not close(self.total, self.total_components, 1e-9):
             ctx.violate("C01", "wrong_value", {"engine": "objhist", "obj_class": "JointDistribution", "how": "sum_of_components",
                                                "graph": self.sc["graph"]["graph"]}, got=self.total, expected=self.total_components)
+        if "closed_form" in G:
+            cf = float(G["closed_form"](self.vals))
+            ctx.count("decisions")
+            if not close(self.total, cf, 1e-8):
+                ctx.violate("C01", "wrong_value", {"engine": "objhist", "obj_class": "JointDistribution", "how": "closed_form",
+                                                   "graph": self.sc["graph"]["graph"]}, got=self.total, expected=cf)
         self.add(G["J"], "joint", [], set(), "J")
         for n in G["names"]:
             if self.sc.get("components", True):
@@ -330,6 +343,13 @@ class ObjRun:
                     continue
                 elif k == "cond":
                     self.op_cond(target, op)
+                elif k == "siblings":
+                    # two views of ONE conditional component, fixed at different values, alive side by side
+                    roots = [o_ for o_ in self.pool if o_.kind == "dens" and not o_.path]
+                    if roots:
+                        o_ = roots[op["pick"] % len(roots)]
+                        for alt in ((False, True) if op["pick"] % 2 else (True, False)):
+                            self.op_cond(o_, {"op": "cond", "how": "kw", "pick": op["pick"], "condvars": True, "alt": alt})
                 elif k == "eval":
                     self.op_eval(target, op)
                 elif k == "invalid":
@@ -385,6 +405,13 @@ class ObjRun:
             names = cands[:k]                  # positional arguments follow the parameter-name order
         else:
             names = list(r.permutation(cands)[:k])
+        if op.get("condvars"):
+            try:
+                names = [n_ for n_ in o.obj.get_conditioning_variables() if n_ in self.vals]
+            except Exception:
+                names = []
+            if not names:
+                return
         step = {"names": names, "how": op["how"]}
         if op.get("alt"):
             step["alt"] = True                 # (objects reached through an alternative value are not judged by the C01
@@ -790,13 +817,13 @@ def _short(v):
         return str(val)[:80]
 
 
-TAGS = {"cov_sd": ["y.cov"], "direct_param": ["y.cov"], "sigdep_x": ["x.prec", "y.cov"], "reg_d": ["x.prec"], "lin_geom": ["y.cov"], "lognormal_cov_s": ["x.cov"], "lin_sqrtprecF": ["y.cov"], "lin_s": ["y.cov"], "lin_d_s": ["x.prec", "y.cov"], "gmrf_d_s": ["x.prec", "y.prec"], "lmrf_d": ["x.scale"],
+TAGS = {"selfnamed": ["y.cov"], "cov_sdt": ["y.cov"], "cov_sd": ["y.cov"], "direct_param": ["y.cov"], "sigdep_x": ["x.prec", "y.cov"], "reg_d": ["x.prec"], "lin_geom": ["y.cov"], "lognormal_cov_s": ["x.cov"], "lin_sqrtprecF": ["y.cov"], "lin_s": ["y.cov"], "lin_d_s": ["x.prec", "y.cov"], "gmrf_d_s": ["x.prec", "y.prec"], "lmrf_d": ["x.scale"],
         "two_lik": ["y2.cov"], "nonlin": ["y.cov"], "xz_s": ["y.cov"], "laplace_b": ["x.scale"],
         "mean_m": ["x.mean", "y.cov"], "cmrf_d": ["x.scale"], "lognormal": ["y.cov"]}
 
 
 def gen_case(r, tier):
-    g = r.choice([x for x in graphs.GRAPHS if x != "reg_s"] + ["xz_s", "cov_sd"])      # callables with two arguments: twice as likely
+    g = r.choice([x for x in graphs.GRAPHS if x != "reg_s"] + ["xz_s", "cov_sd", "cov_sdt", "gmrf_d_s"])      # callables with two arguments: twice as likely
     n = r.randint(2, 5)
     rec = {"graph": g, "n": n, "m": n + r.randint(0, 2), "zseed": r.randrange(1, 10 ** 6),
            "bc": r.choice(["zero", "zero", "neumann"])}
@@ -805,7 +832,15 @@ def gen_case(r, tier):
     for _ in range(r.randint(8, 28)):
         x = r.random()
         on = r.randrange(64)
-        if x < 0.42:
+        prev = [o_ for o_ in ops if o_["op"] == "cond"]
+        if x < 0.03:
+            ops.append({"op": "siblings", "pick": r.randrange(10 ** 6)})
+        elif x < 0.07 and prev:
+            # a SIBLING: the same parent, the same variables, the other value - two conditioned views of one object
+            # alive side by side
+            o_ = r.choice(prev)
+            ops.append(dict(o_, alt=not o_["alt"], how=r.choice(["kw", o_["how"]])))
+        elif x < 0.42:
             ops.append({"op": "cond", "on": on, "how": r.choice(["kw", "kw", "pos"]), "pick": r.randrange(10 ** 6),
                         "multi": r.random() < 0.6, "alt": r.random() < 0.35})
         elif x < 0.62:
